@@ -3,9 +3,13 @@
 //! Direct observation: for every fully parsable corpus text, the code-only serialisation of
 //! the parse tree (node types over code tokens, keywords compared case-insensitively) of the
 //! original and of each perturbed text must be equal.
+//! The perturbation *material* is varied too (classes `…+material`, `space->whitespace-mix`):
+//! comment bodies with multi-byte characters, stars, slashes, quotes, keywords, line breaks;
+//! whitespace runs with tabs, CR, CRLF, Unicode spaces; singly next to unusual tokens; and a
+//! sweep of every material x every dialect on two small texts.
 //! Kernel correspondence (Layout/Model.v): `skip_start_index_forward_to_code`,
 //! `skip_stop_index_backward_to_code`, `StringParser`/`MultiStringParser` matching, block
-//! comment subdivision.
+//! comment subdivision (UTF-8), the native `block_comment` matcher on `Cursor`.
 use ahash::AHashMap;
 use serde_json::{Value, json};
 use sqruff_lib::core::linter::core::Linter;
@@ -94,7 +98,8 @@ fn parse(linter: &Linter, sql: &str) -> Result<Option<Parsed>, String> {
             return None;
         }
         let tree = p.tree?;
-        if tree.raw().as_str() != sql {
+        // the tree must cover the whole text (Linter::normalise_newlines maps "\r\n" and "\r" to "\n" first)
+        if tree.raw().as_str() != sql && tree.raw().as_str() != sql.replace("\r\n", "\n").replace('\r', "\n") {
             return None;
         }
         let mut s = String::new();
@@ -104,7 +109,7 @@ fn parse(linter: &Linter, sql: &str) -> Result<Option<Parsed>, String> {
 }
 
 // ------------------------------------------------------------------ perturbations
-pub const PERTURBATIONS: [&str; 12] = [
+pub const PERTURBATIONS: [&str; 16] = [
     "space->spaces",
     "space->tab",
     "space->newline",
@@ -117,7 +122,90 @@ pub const PERTURBATIONS: [&str; 12] = [
     "keywords-lower",
     "keywords-swap",
     "mixed",
+    // the same claimed classes with varied perturbation *material* (chosen per site)
+    "space->whitespace-mix",
+    "block-comment-in-whitespace+material",
+    "inline-comment-before-newline+material",
+    "mixed+material",
 ];
+
+/// Bodies of inserted block comments (`/*` body `*/`): ASCII and multi-byte text (2-, 3- and
+/// 4-byte UTF-8), stars and slashes (never an opener or closer), quotes of every kind, SQL
+/// keywords and punctuation, line breaks, one nested comment. None starts with `+` or `!` (optimizer hints /
+/// conditional comments are not comments).
+pub const BLOCK_BODIES: [&str; 31] = [
+    " c ",
+    "",
+    "c",
+    " caf\u{e9} ",
+    "\u{e9}",
+    " 5 \u{20ac} ",
+    " \u{6ce8}\u{91ca} ",
+    "\u{6ce8}",
+    " \u{1f600} ok ",
+    " na\u{ef}ve \u{2014} \u{fc}ber \u{df} ",
+    " \u{43a}\u{43e}\u{43c}\u{43c}\u{435}\u{43d}\u{442}\u{430}\u{440}\u{438}\u{439} ",
+    "*",
+    " ** ",
+    " * a * ",
+    "/ x",
+    " a / b // c ",
+    " a * b / c ",
+    " it's ",
+    " 'q' ",
+    " \"dq ",
+    " `bt` ",
+    " l'\u{e9}t\u{e9} ",
+    " -- dash ",
+    " ; , ( ",
+    " select from where ",
+    " $$ @x :y #z ",
+    " line1\n   line2 ",
+    " \u{e9}\n\t\u{6ce8} *\n",
+    " a\r\n b ",
+    " [x] {y} <z> \\ ",
+    // a nested comment (the native matcher of every dialect counts nesting depth)
+    " outer /* inn\u{e9}r */ outer ",
+];
+/// Text of inserted inline comments (inserted as ` --` text before a newline).
+pub const INLINE_BODIES: [&str; 12] = [
+    " c",
+    "",
+    "c",
+    " caf\u{e9}",
+    " \u{6ce8}\u{91ca} \u{1f600}",
+    " it's",
+    " \"dq",
+    " /* not a block",
+    " */",
+    " -- again ; select",
+    "- x",
+    " \u{20ac}'\u{e9}",
+];
+/// Replacements of a whitespace run: other whitespace and newlines.
+pub const WS_RUNS: [&str; 15] = ["\u{a0}", " \u{3000} ", "\u{2003}\t", "  ", " \t ", "\t\t", "\n\n", " \n ", "\r\n", "\n\t", "\t\n  ", "      ", "\n \n\t\n", "\r", " \r\n\t"];
+
+/// How the material of a material-class perturbation is chosen at a site.
+#[derive(Clone, Copy)]
+enum Mat {
+    /// pseudo-randomly per site from a seed
+    Hash(u64),
+    /// the k-th entry of the pool at every site
+    Fixed(usize),
+}
+impl Mat {
+    fn pick(self, site: usize, n: usize) -> usize {
+        match self {
+            Mat::Fixed(k) => k % n,
+            Mat::Hash(seed) => {
+                let mut z = seed ^ (site as u64).wrapping_mul(0x9E3779B97F4A7C15);
+                z = (z ^ (z >> 30)).wrapping_mul(0xBF58476D1CE4E5B9);
+                z = (z ^ (z >> 27)).wrapping_mul(0x94D049BB133111EB);
+                ((z ^ (z >> 31)) % n as u64) as usize
+            }
+        }
+    }
+}
 
 fn swapcase(s: &str) -> String {
     s.chars().map(|c| if c.is_ascii_uppercase() { c.to_ascii_lowercase() } else { c.to_ascii_uppercase() }).collect()
@@ -139,9 +227,9 @@ fn sites(ls: &[Leaf], p: usize) -> Vec<usize> {
             continue;
         }
         let ok = match p {
-            0..=5 => l.kind == SyntaxKind::Whitespace,
-            6 | 7 => l.kind == SyntaxKind::Newline,
-            11 => l.kind == SyntaxKind::Whitespace || l.kind == SyntaxKind::Newline || (l.kind == SyntaxKind::Keyword && l.raw.is_ascii()),
+            0..=5 | 12 | 13 => l.kind == SyntaxKind::Whitespace,
+            6 | 7 | 14 => l.kind == SyntaxKind::Newline,
+            11 | 15 => l.kind == SyntaxKind::Whitespace || l.kind == SyntaxKind::Newline || (l.kind == SyntaxKind::Keyword && l.raw.is_ascii()),
             _ => l.kind == SyntaxKind::Keyword && l.raw.is_ascii(),
         };
         if ok {
@@ -151,7 +239,7 @@ fn sites(ls: &[Leaf], p: usize) -> Vec<usize> {
     out
 }
 
-fn apply(ls: &[Leaf], p: usize, chosen: &[usize]) -> String {
+fn apply(ls: &[Leaf], p: usize, chosen: &[usize], mat: Mat) -> String {
     let mut s = String::new();
     let mut k = 0;
     for (i, l) in ls.iter().enumerate() {
@@ -165,10 +253,29 @@ fn apply(ls: &[Leaf], p: usize, chosen: &[usize]) -> String {
                     SyntaxKind::Newline => [6usize, 7][(i + l.start) % 2],
                     _ => [8usize, 9, 10][(i * 5 + l.start) % 3],
                 }
+            } else if p == 15 {
+                match l.kind {
+                    SyntaxKind::Whitespace => [12usize, 13, 13, 12, 2][(i * 7 + l.start) % 5],
+                    SyntaxKind::Newline => [14usize, 7, 14][(i + l.start) % 3],
+                    _ => [8usize, 9, 10][(i * 5 + l.start) % 3],
+                }
             } else {
                 p
             };
             match p {
+                12 => s.push_str(WS_RUNS[mat.pick(i, WS_RUNS.len())]),
+                13 => {
+                    s.push_str(&l.raw);
+                    s.push_str("/*");
+                    s.push_str(BLOCK_BODIES[mat.pick(i, BLOCK_BODIES.len())]);
+                    s.push_str("*/");
+                    s.push_str(&l.raw);
+                }
+                14 => {
+                    s.push_str(" --");
+                    s.push_str(INLINE_BODIES[mat.pick(i, INLINE_BODIES.len())]);
+                    s.push_str(&l.raw);
+                }
                 0 => s.push_str("   "),
                 1 => s.push('\t'),
                 2 => s.push('\n'),
@@ -231,8 +338,8 @@ struct Item {
     text: String,
 }
 
-fn check_one(linter: &Linter, it: &Item, base: &Parsed, p: usize, mode: &str, chosen: &[usize], ls: &[Leaf], buf: &mut Buf) {
-    let text2 = apply(ls, p, chosen);
+fn check_one(linter: &Linter, it: &Item, base: &Parsed, p: usize, mode: &str, chosen: &[usize], ls: &[Leaf], mat: Mat, buf: &mut Buf) {
+    let text2 = apply(ls, p, chosen, mat);
     if text2 == it.text {
         return;
     }
@@ -258,6 +365,34 @@ fn check_one(linter: &Linter, it: &Item, base: &Parsed, p: usize, mode: &str, ch
     }
 }
 
+/// leaf kinds that every dialect produces all the time; a perturbation site whose nearest code
+/// neighbour is of any *other* kind sits next to a dialect-specific / unusual token
+fn common_kind(k: SyntaxKind) -> bool {
+    matches!(
+        k,
+        SyntaxKind::Keyword
+            | SyntaxKind::NakedIdentifier
+            | SyntaxKind::Comma
+            | SyntaxKind::NumericLiteral
+            | SyntaxKind::StartBracket
+            | SyntaxKind::EndBracket
+            | SyntaxKind::Dot
+            | SyntaxKind::Star
+            | SyntaxKind::QuotedLiteral
+            | SyntaxKind::RawComparisonOperator
+            | SyntaxKind::StatementTerminator
+            | SyntaxKind::FunctionNameIdentifier
+            | SyntaxKind::DataTypeIdentifier
+            | SyntaxKind::BinaryOperator
+            | SyntaxKind::ComparisonOperator
+    )
+}
+fn rare_neighbour(ls: &[Leaf], i: usize) -> bool {
+    let prev = ls[..i].iter().rev().find(|l| !l.raw.is_empty());
+    let next = ls[i + 1..].iter().find(|l| !l.raw.is_empty());
+    [prev, next].into_iter().flatten().any(|l| l.code && !common_kind(l.kind))
+}
+
 fn run_file(ls_cache: &mut std::collections::HashMap<String, Linter>, it: &(Item, u64, bool), buf: &mut Buf) {
     let (it, seed, thorough) = (&it.0, it.1, it.2);
     let linter = ls_cache.entry(it.dialect.clone()).or_insert_with(|| mk_linter(&it.dialect));
@@ -276,32 +411,61 @@ fn run_file(ls_cache: &mut std::collections::HashMap<String, Linter>, it: &(Item
     buf.count("files_fully_parsable", 1);
     let ls = leaves(&base.tree);
     let mut rng = Rng::new(seed);
+    if it.name.starts_with("sweep:") {
+        // every entry of every material pool, at every site singly and at all sites
+        for (p, n) in [(12usize, WS_RUNS.len()), (13, BLOCK_BODIES.len()), (14, INLINE_BODIES.len())] {
+            let st = sites(&ls, p);
+            for k in 0..n {
+                for one in &st {
+                    check_one(linter, it, &base, p, "sweep-single", &[*one], &ls, Mat::Fixed(k), buf);
+                }
+                check_one(linter, it, &base, p, "sweep-global", &st, &ls, Mat::Fixed(k), buf);
+            }
+        }
+        return;
+    }
     for p in 0..PERTURBATIONS.len() {
         let st = sites(&ls, p);
         if st.is_empty() {
             continue;
         }
+        let material = p >= 12;
         buf.count("sites", st.len());
         // globally
-        check_one(linter, it, &base, p, "global", &st, &ls, buf);
+        check_one(linter, it, &base, p, "global", &st, &ls, Mat::Hash(rng.next()), buf);
         // random subsets
         let n_sub = if thorough { 4 } else { 1 };
         for _ in 0..n_sub {
             let sub: Vec<usize> = st.iter().copied().filter(|_| rng.chance(1, 2)).collect();
             if !sub.is_empty() && sub.len() < st.len() {
-                check_one(linter, it, &base, p, "subset", &sub, &ls, buf);
+                check_one(linter, it, &base, p, "subset", &sub, &ls, Mat::Hash(rng.next()), buf);
             }
         }
-        // single positions
-        let n_single = if thorough { 6.min(st.len()) } else { 2.min(st.len()) };
-        for _ in 0..n_single {
+        // single positions (material classes: the product site x material is larger)
+        let n_single = if thorough { 6 } else { 2 } + if material { 2 } else { 0 };
+        for _ in 0..n_single.min(st.len()) {
             let one = [st[rng.below(st.len())]];
-            check_one(linter, it, &base, p, "single", &one, &ls, buf);
+            check_one(linter, it, &base, p, "single", &one, &ls, Mat::Hash(rng.next()), buf);
+        }
+        // single positions next to a dialect-specific / unusual token
+        if material || p == 3 {
+            let rare: Vec<usize> = st.iter().copied().filter(|i| rare_neighbour(&ls, *i)).collect();
+            buf.count("sites_next_to_unusual_token", rare.len());
+            let n_rare = if thorough { 4 } else { 2 };
+            for _ in 0..n_rare.min(rare.len()) {
+                let one = [rare[rng.below(rare.len())]];
+                check_one(linter, it, &base, p, "single-next-to-unusual-token", &one, &ls, Mat::Hash(rng.next()), buf);
+            }
         }
     }
 }
 
 // ------------------------------------------------------------------ kernel correspondence
+/// `clean_body` of Layout/Model.v: no NUL, no opener or closer inside, no '/' at the very end
+fn clean_body(body: &str) -> bool {
+    !body.contains('\0') && !body.contains("/*") && !body.contains("*/") && !body.ends_with('/')
+}
+
 fn kernel_cases(args: &Args, out: &mut Out) {
     let thorough = args.thorough();
     let mut rng = Rng::new(args.seed ^ 0xc11);
@@ -392,18 +556,26 @@ fn kernel_cases(args: &Args, out: &mut Out) {
             );
         }
     }
-    // block comment subdivision (ANSI matcher: newline subdivider, whitespace trim)
-    let pieces = ["a", " ", "  ", "\t", "\n", "\r\n", "b c", "*", "/", "noqa", "\n\n", " \n ", "x\t"];
-    for _ in 0..(if thorough { 3000 } else { 600 }) {
-        let n = rng.range(0, 7);
-        let body: String = (0..n).map(|_| pieces[rng.below(pieces.len())]).collect();
-        if body.contains("*/") || body.contains("/*") || body.starts_with('/') || body.ends_with('/') || !body.is_ascii() {
+    // block comment subdivision (ANSI matcher: newline subdivider, whitespace trim); bodies of the
+    // perturbation class: ASCII and multi-byte text, Unicode whitespace, stars, slashes, quotes
+    let pieces = [
+        "a", " ", "  ", "\t", "\n", "\r\n", "b c", "*", "/", "noqa", "\n\n", " \n ", "x\t", "\u{e9}", "\u{20ac}", "\u{6ce8}\u{91ca}", "\u{1f600}", "\u{a0}",
+        "\u{3000}", "\u{2003}", "\u{85}", "\u{2028}", "'", "\"", "caf\u{e9}", "\u{b}", "\r",
+    ];
+    for round in 0..(if thorough { 4000 } else { 900 }) {
+        let body: String = if round < BLOCK_BODIES.len() {
+            BLOCK_BODIES[round].to_string()
+        } else {
+            let n = rng.range(0, 7);
+            (0..n).map(|_| pieces[rng.below(pieces.len())]).collect()
+        };
+        if !clean_body(&body) {
             continue;
         }
         let text = format!("/*{}*/", body);
         let r = catch(|| dialect.lexer().lex(&tables, StringOrTemplate::String(&text)));
         let Ok(Ok((toks, _))) = r else {
-            buf.count("block_comment_lex_failed", 1);
+            buf.hyp("H_block_comment_tokens_are_non_code", "blocking", false, json!({"text":text,"lexer":"failed or panicked"}));
             continue;
         };
         let elems: Vec<(usize, String)> = toks
@@ -423,12 +595,59 @@ fn kernel_cases(args: &Args, out: &mut Out) {
         buf.hyp("H_block_comment_tokens_are_non_code", "blocking", all_noncode, json!({"text":text}));
         buf.case(
             "subdiv",
-            "block-comment",
+            if text.is_ascii() { "block-comment" } else { "block-comment-non-ascii" },
             elems.len() > 1,
             g_str(&text),
             g_list(elems.iter().map(|(k, r)| g_pair(&g_n(*k), &g_str(r)))),
             json!({"input":{"kernel":"subdiv"},"text":text,"tokens":elems.iter().map(|(k,r)| json!([k,r])).collect::<Vec<_>>()}),
         );
+    }
+    // the native block_comment matcher itself (Pattern::matches -> Cursor::lexed): byte length of
+    // the match on comment + following text; every dialect's own matcher
+    let heads = ["/*", "/*", "/*", "/**", "/*/", "/", "/ *", "", "-", "*/", "\u{e9}/*"];
+    let mids = [
+        "a", " ", "*", "/", "/*", "*/", "\n", "\u{e9}", "\u{20ac}", "\u{6ce8}", "\u{1f600}", "caf\u{e9} ", "'", "--", "\0", "\u{a0}", "**", "//", " x ",
+    ];
+    let tails = ["", "*/", "*/", "*/ , b", "*/\u{e9}", "*/ FROM t\n", "*/*/", "*", "*/ /* \u{e9} */ x"];
+    for d in DIALECTS {
+        let l = mk_linter(d);
+        let dl = l.config().get_dialect();
+        let lexer = dl.lexer();
+        let Some(m) = lexer.verif_matchers().iter().find(|m| m.name() == "block_comment") else {
+            buf.count("dialects_without_block_comment_matcher", 1);
+            continue;
+        };
+        let pat = m.verif_pattern();
+        if pat.verif_variant() != "native" {
+            buf.count("dialects_with_non_native_block_comment", 1);
+            continue;
+        }
+        buf.count("dialects_with_native_block_comment", 1);
+        let n = (if thorough { 2500 } else { 500 }) / (if d == "ansi" { 1 } else { 5 });
+        for round in 0..n {
+            let text: String = if round < BLOCK_BODIES.len() {
+                format!("/*{}*/{}", BLOCK_BODIES[round], tails[round % tails.len()])
+            } else {
+                let k = rng.range(0, 6);
+                let mut t = heads[rng.below(heads.len())].to_string();
+                for _ in 0..k {
+                    t.push_str(mids[rng.below(mids.len())]);
+                }
+                t.push_str(tails[rng.below(tails.len())]);
+                t
+            };
+            let r = catch(|| pat.verif_matches(&text));
+            buf.hyp("H_block_comment_matcher_does_not_panic", "blocking", r.is_ok(), json!({"dialect":d,"text":text}));
+            let Ok(r) = r else { continue };
+            buf.case(
+                "bcmatch",
+                if text.is_ascii() { "block-comment-matcher" } else { "block-comment-matcher-non-ascii" },
+                r.is_some(),
+                g_str(&text),
+                g_opt(r.map(g_n)),
+                json!({"input":{"kernel":"bcmatch"},"dialect":d,"text":text,"matched_bytes":r}),
+            );
+        }
     }
     out.absorb(buf);
 }
@@ -496,6 +715,15 @@ pub fn main(args: &Args) {
         out.absorb(buf);
     }
     let mut rng = Rng::new(args.seed);
+    // (first, so that the first reported failing inputs are the small ones)
+    // every material of every pool x every dialect, on small texts with the constructs the
+    // material could fuse with (alias vs operator, list separators, string and quoted names)
+    for d in DIALECTS {
+        for (k, text) in ["SELECT a , b FROM t\n", "SELECT a b , 'it''s' AS c\nFROM t AS u\nWHERE x = 1 AND y <> 'z'\n"].into_iter().enumerate() {
+            let seed = rng.next();
+            items.push((Item { dialect: d.to_string(), name: format!("sweep:{}", k), text: text.to_string() }, seed, thorough));
+        }
+    }
     for f in corpus() {
         if f.text.len() > (if thorough { 20000 } else { 6000 }) {
             continue;
